@@ -47,6 +47,12 @@ package nodef
 //@   ensures [C04] (ok4 && err == nil) ==> st.Adapter == (k4 == 0 ? decStrV(src, q3, 3, d0) : old(st.Adapter))
 //@   ensures [C06] (ok3 && k4 == 2) ==> err != nil
 //@   ensures [C04] ok4 ==> (err == nil && readBuf.buf.i == q4)
+//@   site ).Read#0 assert [C04] $2 == 0 && $3 == true
+//@   site ).Read#1 assert [C04] $2 == 1 && $3 == true
+//@   site ).Read#2 assert [C04] $2 == 2 && $3 == true
+//@   site ).Read#3 assert [C04] $2 == 3 && $3 == false
+//@   sites ).Read = 4
+//@   sites ).Skip = 0
 //@   safety [C05]
 //
 //@ func (*ServerInfo).ReadBlock
